@@ -473,7 +473,12 @@ fn build_enum(
         default_index,
     } = enum_definition;
 
-    let syn_type = sa_type_to_syn_type(type_)?;
+    // `repr` takes the name of the integer type itself, never a path (and it is not subject
+    // to shadowing by an item of the module).
+    let syn_type = match type_ {
+        Type::Raw(path) if path.len() == 1 => str_to_ident(&path.to_string()),
+        _ => anyhow::bail!("the base type `{type_}` of enum `{path}` is not a predefined integer type"),
+    };
     let name_ident = str_to_ident(name.as_str());
 
     // The values are written as `<value> as _`, which silently truncates: make sure they fit.
